@@ -1,6 +1,7 @@
 """C15 — source positions are accurate (clauses decided on the position-computing source)."""
 import itertools
 
+import re
 import absint
 import vf
 from absint import Interp, OPAQUE, Return, Unknown
@@ -223,8 +224,17 @@ def r_own(ctx):
             continue
         if "span" in params:
             ctx.violation(rid, key, B, fi.line, "%s stores a span received from its caller: the node's span is its parent's, so it overlaps its siblings" % fi.name)
-        elif local_span != "pest_span_to_ast_span(&pair.as_span(),input)":
-            ctx.violation(rid, key + "|origin", B, fi.line, "%s computes its span as `%s`" % (fi.name, local_span))
+        else:
+            # the span must come from the function's own Pair parameter: pest_span_to_ast_span(&<pair param>.as_span(), ..)
+            pair_params = [inp["pat"]["n"] for inp in fi.node["sig"]["inputs"] if "pat" in inp and inp["pat"]["k"] == "pid" and "Pair" in str(inp.get("ty"))]
+            own = any(local_span is not None and local_span.replace(" ", "").startswith("pest_span_to_ast_span(&%s.as_span()," % pp) for pp in pair_params)
+            if own:
+                continue
+            other = re.match(r"pest_span_to_ast_span\(&(\w+)\.as_span\(\),", (local_span or "").replace(" ", ""))
+            if other and other.group(1) not in pair_params:
+                ctx.violation(rid, key + "|origin", B, fi.line, "%s computes its span from `%s`, which is not its own pair" % (fi.name, other.group(1)))
+            else:
+                ctx.incomplete_msg(rid, "%s: origin of the stored span (`%s`) not recognised" % (fi.name, local_span))
 
 
 def run(ctx):
